@@ -199,6 +199,7 @@ func (fv *FV) callByContract(st *State, fn *ssa.Function, spec *FuncSpec, c *ssa
 func (fv *FV) applyContract(st *State, spec *FuncSpec, fn *ssa.Function, c *ssa.CallCommon, args []Term, pos token.Pos, sig *types.Signature) []Term {
 	spec.Used = true
 	fv.calleesByContract[spec.Key] = true
+	fv.siteAsserts(st, lastPart(spec.Key), false, nil, pos)
 	for _, a := range args {
 		st.escapeTerm(a)
 	}
@@ -357,6 +358,11 @@ func (fv *FV) applyContract(st *State, spec *FuncSpec, fn *ssa.Function, c *ssa.
 					break
 				}
 			}
+			if proto.Sort == "" {
+				if t := calleeResultType(fn, g.Callee, ri); t != nil {
+					proto = Term{Sort: fv.sortOf(t), T: t}
+				}
+			}
 		} else {
 			proto = pre.Eval(g.Clause.E)
 		}
@@ -378,7 +384,38 @@ func (fv *FV) applyContract(st *State, spec *FuncSpec, fn *ssa.Function, c *ssa.
 		fv.outsidef("contract error at call of %s: %s", spec.Key, e)
 	}
 	fv.bindGhosts(st, lastPart(spec.Key), res)
+	fv.siteAsserts(st, lastPart(spec.Key), true, res, pos)
 	return res
+}
+
+// siteAsserts: assert LABEL: EXPR before|after CALLEE[#k] - obligations at a call site of the function
+// under verification (top-level frame only). "before" is evaluated before the callee's precondition is
+// checked, with the ordinal the call is about to get; "after" once its postcondition has been assumed.
+func (fv *FV) siteAsserts(st *State, callee string, after bool, res []Term, pos token.Pos) {
+	if fv.spec == nil || len(fv.spec.Asserts) == 0 || st.frame == nil || st.frame.ID != 0 {
+		return
+	}
+	ord := st.callCount[callee]
+	if !after {
+		ord++
+	}
+	for i, a := range fv.spec.Asserts {
+		if a.After != after || a.Callee != callee || a.Ord != ord {
+			continue
+		}
+		var errs []string
+		env := fv.stateEnv(st, &errs)
+		env.cells = fv.cellLookup(st)
+		if len(res) > 0 {
+			env.vars["callresult"] = res[0]
+		}
+		if len(res) > 1 {
+			env.vars["callresult1"] = res[1]
+		}
+		g := env.Eval(a.Clause.E)
+		fv.oblige(st, "assert", clauseName(a.Clause, i), pos, g, a.Clause.Text)
+		fv.reportErrs(errs)
+	}
 }
 
 // bindGhosts: ghost NAME = EXPR after CALLEE
@@ -396,6 +433,23 @@ func (fv *FV) bindGhosts(st *State, callee string, res []Term) {
 		st.callCount = nc
 	}
 	st.callCount[callee]++
+	if names := fv.counterNames(); len(names) > 0 {
+		for _, n := range names {
+			if n != callee {
+				continue
+			}
+			nc := make(map[string]Term, len(st.cnt)+1)
+			for k, v := range st.cnt {
+				nc[k] = v
+			}
+			old, ok := nc[n]
+			if !ok {
+				old = mkInt(0)
+			}
+			nc[n] = fv.def(st, "cnt_"+smtName(n), Term{S: "(+ " + old.S + " 1)", Sort: SInt, T: types.Typ[types.Int]})
+			st.cnt = nc
+		}
+	}
 	for _, g := range fv.spec.GhostAt {
 		if g.Callee != callee || g.Ord != st.callCount[callee] {
 			continue
